@@ -25,12 +25,50 @@ def coq_ttree(node):
     return f"(TNode {nl(node['ids'])} {v} {b} {coq_ttree(l)} {coq_ttree(r)})"
 
 
+def _rowkeys(t):
+    """multiset (as a dict bytes -> multiplicity) of the rows of a 2-D tensor"""
+    out = {}
+    for r in t.detach().cpu():
+        k = r.numpy().tobytes()
+        out[k] = out.get(k, 0) + 1
+    return out
+
+
+def received_rows(leaf_node, Xt):
+    """Which training rows did this leaf RECEIVE during training?  Read off what was actually handed to the leaf's model
+    (the recording RFM subclass keeps the arguments of fit): the rows it was fitted on, plus the rows that appear in its validation
+    set beyond the caller's validation points that were routed to the node (training rows the library moved there when it refilled
+    the validation set: the leaf is tuned on them).  A row that entered the node but was handed to the model in neither role was not
+    received by the leaf -- whatever the node's index bookkeeping says.  Returns (received ids, ids that entered and were dropped)."""
+    rfm = leaf_node['rfm']
+    fitted = _rowkeys(rfm.rec_train[0])
+    tuned = _rowkeys(rfm.rec_val[0])
+    for k, m in _rowkeys(leaf_node['Xval']).items():        # the caller's validation points of this node are not training rows
+        if k in tuned:
+            tuned[k] -= m
+    got, dropped = set(), []
+    for j in leaf_node['ids']:
+        k = Xt[j].numpy().tobytes()
+        if fitted.get(k, 0) > 0 or tuned.get(k, 0) > 0:
+            got.add(j)
+        else:
+            dropped.append(j)
+    return got, dropped
+
+
+# growth budgets (seconds) of the budget regime: used up on entry, used up after the first split or two, comfortably large
+BUDGETS = [0.0, 1e-3, 2.5e-4, 1e-6, 0.05, 3600.0, 0.0, 1e-4]
+BUDGET_METHODS = ['top_vector_agop_on_subset', 'pca', 'random_agop_on_subset', 'rf_criterion', 'top_pc_agop_on_subset', 'random_global_agop',
+                  'random', 'fixed_vector']
+
+
 def run(ck):
     from harness import xr
     ck.rule = ('real xRFM.fit (all split methods, overlap 0..0.45, depth 1-4, odd and even node sizes) with the recording wrapper; '
                'the recorded tree (ids per node, direction, threshold) is checked in Coq by tokb (rank halves + lower median, slack e) whose '
                'soundness for routing is the theorem; real prediction-time routing of the training rows is compared with the leaf that '
-               'received them and with the Coq route; validation assignment is compared with the <= rule.  '
+               'received them (= whose model was fitted or tuned on them, read off the arguments of the leaf fit) and with the Coq route; validation '
+               'assignment is compared with the <= rule; budget regime: the same under time_limit_s from 0 to ample, one and two trees, tree iterations.  '
                'non-trivial = >=1 split; distinct by config+node sizes')
     ck.trusted += ['Coq 8.16.1 kernel + vm_compute', 'harness/xr.py recorders', 'exact Fraction projections']
     ck.assumptions += ['torch.sort sorts (any tie order); torch.median returns the lower median',
@@ -40,11 +78,17 @@ def run(ck):
     splitarith.check_translation(ck)
     rng = np.random.default_rng(ck.seed + 808)
     nfits = ck.n(20, 160)
+    # the budget regime: fits under a growth budget (time_limit_s) -- from "used up before the first split" over "used up one or two levels down"
+    # to "never reached" -- over split methods, overlap, several trees sharing the budget and tree iterations.  Whatever the builder does
+    # when a subtree runs out of budget, the statement is the same: an untied training row must reach a leaf that was handed that row.
+    nbudget = ck.n(8, 40)
     cases = []
     meta = {}
     cid = 0
-    for i in range(nfits):
-        exact = (i % 3 == 0)
+    for i in range(nfits + nbudget):
+        budget = i >= nfits
+        kb = i - nfits
+        exact = (i % 3 == 0) if not budget else (kb % 4 == 3)
         L = int(rng.integers(6, 30))
         n = int(rng.integers(L + 1, min(14 * L, 330)))
         if i % 4 == 1:
@@ -61,9 +105,15 @@ def run(ck):
                   'random_agop_on_subset', 'top_pc_agop_on_subset', 'random_global_agop'][i % 10]
         tree_iters = 0
         kw = {}
+        time_limit_s = None
+        if budget:
+            method = BUDGET_METHODS[kb % 8]
+            time_limit_s = BUDGETS[(kb + kb // 8) % 8]
+            if kb % 8 >= 6:
+                kw['n_trees'] = 2                      # the budget is shared between the trees (a used-up budget ends the loop after the first one)
         if exact:
             X = xr.make_X('distinct_grid', n, d, rng)
-            method = 'fixed_vector' if i % 2 else 'rf_criterion'
+            method = ('fixed_vector' if i % 2 else 'rf_criterion') if not budget else ('rf_criterion' if kb % 8 == 3 else 'fixed_vector')
             if method == 'fixed_vector':
                 kw['fixed_vector'] = torch.tensor(rng.integers(-3, 4, size=d).astype(np.float32))
                 if float(kw['fixed_vector'].abs().sum()) == 0:
@@ -76,7 +126,7 @@ def run(ck):
                 kw['fixed_vector'] = torch.tensor(rng.standard_normal(d).astype(np.float32))
         if method == 'random_global_agop':
             tree_iters = [1, 2][(i // 10) % 2]                 # the held tree is a copy of the best of 1 + tree_iters builds
-        forced = (i % 11 == 7)
+        forced = (i % 11 == 7) and not budget
         if forced:
             # an overlap band that takes almost the whole node (f close to 1/2 on a small node, reachable through a requested number of splits): the right child has no
             # sample of its own, the left child one — every sample still lands in a leaf that received it
@@ -90,85 +140,112 @@ def run(ck):
         if not exact and i % 5 == 3:
             Xv = (Xv * np.float32(1e-5)).astype(np.float32)
         yv = xr.make_y('reg', Xv, rng)
-        desc = dict(i=i, n=n, L=L, d=d, f=f, method=method, exact=exact, tree_iters=tree_iters, small_magnitude=bool((not exact) and i % 5 == 3), forced_splits=kw.get('number_of_splits'), configured_temperature=(0.05 if i % 6 == 2 else None), seed=ck.seed)
+        desc = dict(i=i, n=n, L=L, d=d, f=f, method=method, exact=exact, tree_iters=tree_iters, small_magnitude=bool((not exact) and i % 5 == 3), forced_splits=kw.get('number_of_splits'), configured_temperature=(0.05 if i % 6 == 2 else None), time_limit_s=time_limit_s, n_trees=kw.get('n_trees', 1), seed=ck.seed)
         xr.seed_all(8000 + i + ck.seed)
         model = xr.xRFM(rfm_params=xr.default_rfm_params(iters=(1 if tree_iters else 0), reg=1e-2), max_leaf_size=L, split_method=method,
                         overlap_fraction=f, verbose=False, use_temperature_tuning=False, refill_size=10, n_tree_iters=tree_iters,
                         # every sixth fit: a soft-routing temperature is configured (it concerns prediction only: the caller's validation points are still ROUTED by the <= rule)
-                        **(dict(split_temperature=0.05) if i % 6 == 2 else {}), **kw)
+                        **(dict(split_temperature=0.05) if i % 6 == 2 else {}), **(dict(time_limit_s=time_limit_s) if budget else {}), **kw)
         Xt = torch.tensor(X)
         rec = xr.fit_recorded(model, Xt, torch.tensor(y), torch.tensor(Xv), torch.tensor(yv), timeout=120, tolerate_empty_val=True)
         model.split_temperature = None          # the routing that is examined below is the hard one
         if rec.error is not None:
             ck.violation(f'fit did not return ({rec.error}) on {desc}', dict(desc, error=rec.error), key=json.dumps(dict(site='fit')))
             continue
-        root = xr.match_build(rec, model.trees[0])
-        if root is None:
-            ck.violation(f'the held tree is none of the {len(rec.trees)} trees that were built, on {desc}', dict(desc), key=json.dumps(dict(site='held-tree')))
+        if not model.trees:
+            ck.violation(f'the fit holds no tree on {desc}', dict(desc), key=json.dumps(dict(site='held-tree')))
+            continue
+        roots = [xr.match_build(rec, t) for t in model.trees]
+        if any(r is None for r in roots):
+            ck.violation(f'a held tree is none of the {len(rec.trees)} trees that were built, on {desc}', dict(desc), key=json.dumps(dict(site='held-tree')))
             continue
         ck.count(f'tree_iters={tree_iters}')
-        nodes = [nd for nd in xr.walk(root) if nd['kind'] != 'leaf']
         ck.count(f'method={method}'); ck.count(f'f={f}'); ck.count('exact-arith' if exact else 'float-band')
         ck.count(f'depth={orc.tree_depth(model.trees[0])}')
-        for nd in nodes:
-            ck.count('odd node' if nd['n'] % 2 else 'even node')
-        # slack
-        if exact:
-            e = Fraction(0)
-        else:
-            e = Fraction(0)
-            for nd in nodes:
-                v = nd['direction'].double()
-                s = float((nd['X'].double().abs() @ v.abs()).max()) + abs(float(nd['threshold']))
-                e = max(e, Fraction(s * d * 2.0 ** -20))
+        if budget:
+            ck.count(f'budget regime: time_limit_s={time_limit_s}'); ck.count(f'budget regime: held trees={len(model.trees)}')
         Xrows = [orc.frow(Xt[j]) for j in range(n)]
-        # ---- oracle on the statement: real prediction-time routing of training rows vs leaf that received them ----
-        tree = model.trees[0]
-        groups, gidx, gleaves = model._get_leaf_groups_and_models_on_samples(Xt, tree)
-        recv_of_leaf = {id(held): set(lf['ids']) for lf, held in xr.leaf_pairs(root, tree)}
-        lids = orc.assign_leaf_ids(tree)
-        reached = {}
-        for idx, lf in zip(gidx, gleaves):
-            for j in idx.tolist():
-                reached[j] = lf
-        n_checked = 0
-        route_rows = []
-        for j in range(n):
-            # tied with a threshold on its route? (exact arithmetic, 2e band as in the theorem)
-            node = tree; near = False
-            while node['type'] != 'leaf':
-                v = orc.frow(node['split_direction']); b = orc.F(node['split_point'])
-                p = sum((a * c for a, c in zip(Xrows[j], v)), Fraction(0))
-                if abs(p - b) <= 2 * e:
-                    near = True
-                node = node['left'] if p <= b else node['right']
-            if near:
-                ck.skip('training rows within 2e of (or tied with) a threshold')
-                continue
-            n_checked += 1
-            route_rows.append(j)
-            lf = reached[j]
-            if j not in recv_of_leaf[id(lf)]:
-                ck.violation(f'training sample {j} is routed at prediction time to a leaf that did not receive it in training, on {desc}',
-                             dict(desc, sample=j, row=X[j].tolist()), key=json.dumps(dict(site='train-vs-predict-routing', f=f, odd=bool(n % 2))))
-            if lids[id(lf)] != lids[id(node)]:
-                ck.violation(f'real routing of sample {j} reaches leaf {lids[id(lf)]} but exact <= routing reaches {lids[id(node)]} on {desc}',
-                             dict(desc, sample=j), key=json.dumps(dict(site='routing-vs-exact')))
-        # validation assignment
-        for nd in nodes:
-            v = orc.frow(nd['direction']); b = orc.F(nd['threshold'])
-            lchild, rchild = nd['children']
-            lset = {r.numpy().tobytes() for r in lchild['Xval']}
-            rset = {r.numpy().tobytes() for r in rchild['Xval']}
-            if lchild['nval'] + rchild['nval'] != nd['nval']:
-                ck.violation(f'validation points lost or duplicated at a split on {desc}', dict(desc), key='val-count')
-            for r in nd['Xval']:
-                p = sum((a * c for a, c in zip(orc.frow(r), v)), Fraction(0))
-                key = r.numpy().tobytes()
-                if p + e < b and key not in lset or p > b + e and key not in rset:
-                    ck.violation(f'validation point with projection {float(p)} vs threshold {float(b)} assigned against the <= rule on {desc}',
-                                 dict(desc, row=r.tolist()), key=json.dumps(dict(site='val-routing')))
-        ck.case(dict(desc, node_sizes=[nd['n'] for nd in nodes], checked=n_checked), nontrivial=len(nodes) >= 1, sample=len(nodes) >= 3)
+        per_tree = []
+        for t_idx, (tree, root) in enumerate(zip(model.trees, roots)):
+            tdesc = dict(desc, tree=t_idx)
+            nodes = [nd for nd in xr.walk(root) if nd['kind'] != 'leaf']
+            for nd in nodes:
+                ck.count('odd node' if nd['n'] % 2 else 'even node')
+            # slack
+            e = Fraction(0)
+            if not exact:
+                for nd in nodes:
+                    v = nd['direction'].double()
+                    s = float((nd['X'].double().abs() @ v.abs()).max()) + abs(float(nd['threshold']))
+                    e = max(e, Fraction(s * d * 2.0 ** -20))
+            # ---- oracle on the statement: real prediction-time routing of training rows vs leaf that received them ----
+            groups, gidx, gleaves = model._get_leaf_groups_and_models_on_samples(Xt, tree)
+            # "received" = handed to the leaf's model (fitted on it, or tuned on it after the validation refill), see received_rows
+            recv_of_leaf, dropped_of_leaf = {}, {}
+            for lf, held in xr.leaf_pairs(root, tree):
+                recv_of_leaf[id(held)], dropped_of_leaf[id(held)] = received_rows(lf, Xt)
+            lids = orc.assign_leaf_ids(tree)
+            reached = {}
+            for idx, lf in zip(gidx, gleaves):
+                for j in idx.tolist():
+                    reached[j] = lf
+            n_checked = 0
+            route_rows = []
+            misrouted = {}
+            for j in range(n):
+                # tied with a threshold on its route? (exact arithmetic, 2e band as in the theorem)
+                node = tree; near = False
+                while node['type'] != 'leaf':
+                    v = orc.frow(node['split_direction']); b = orc.F(node['split_point'])
+                    p = sum((a * c for a, c in zip(Xrows[j], v)), Fraction(0))
+                    if abs(p - b) <= 2 * e:
+                        near = True
+                    node = node['left'] if p <= b else node['right']
+                if near:
+                    ck.skip('training rows within 2e of (or tied with) a threshold')
+                    continue
+                n_checked += 1
+                route_rows.append(j)
+                lf = reached.get(j)
+                if lf is None:
+                    ck.violation(f'training sample {j} = {X[j].tolist()} reaches no leaf at prediction time on {tdesc}', dict(tdesc, sample=j, row=X[j].tolist()),
+                                 key=json.dumps(dict(site='routing-reaches-no-leaf')))
+                    continue
+                if j not in recv_of_leaf[id(lf)]:
+                    misrouted.setdefault(lids[id(lf)], []).append(j)
+                if lids[id(lf)] != lids[id(node)]:
+                    ck.violation(f'real routing of sample {j} reaches leaf {lids[id(lf)]} but exact <= routing reaches {lids[id(node)]} on {tdesc}',
+                                 dict(tdesc, sample=j), key=json.dumps(dict(site='routing-vs-exact')))
+            for lid, js in sorted(misrouted.items()):
+                j = js[0]
+                held = [h for h in orc.tree_leaves(tree) if lids[id(h)] == lid][0]
+                entered = j in dropped_of_leaf[id(held)]
+                elsewhere = [lids[k] for k, got in recv_of_leaf.items() if j in got]
+                ck.violation(f'training sample {j} = {X[j].tolist()} (untied; {len(js)} such rows of {n}) is routed at prediction time to leaf {lid}, which did not receive it in training: '
+                             f'the leaf model was fitted on {int(held["model"].centers.shape[0]) if getattr(held["model"], "centers", None) is not None else "?"} rows and tuned on its validation rows, '
+                             f'sample {j} is in neither' + (' although it entered that node during the build' if entered else '')
+                             + (f'; it was received by leaf/leaves {elsewhere}' if elsewhere else '; no leaf of the tree received it') + f', on {tdesc}',
+                             dict(tdesc, sample=j, row=X[j].tolist(), leaf=lid, misrouted_rows=js[:50], n_misrouted=len(js), X=X.tolist(), y=y.tolist(),
+                                  Xv=Xv.tolist(), yv=yv.tolist()),
+                             key=json.dumps(dict(site='train-vs-predict-routing', f=f, odd=bool(n % 2), budget=budget)))
+            # validation assignment
+            for nd in nodes:
+                v = orc.frow(nd['direction']); b = orc.F(nd['threshold'])
+                lchild, rchild = nd['children']
+                lset = {r.numpy().tobytes() for r in lchild['Xval']}
+                rset = {r.numpy().tobytes() for r in rchild['Xval']}
+                if lchild['nval'] + rchild['nval'] != nd['nval']:
+                    ck.violation(f'validation points lost or duplicated at a split on {tdesc}', dict(tdesc), key='val-count')
+                for r in nd['Xval']:
+                    p = sum((a * c for a, c in zip(orc.frow(r), v)), Fraction(0))
+                    key = r.numpy().tobytes()
+                    if p + e < b and key not in lset or p > b + e and key not in rset:
+                        ck.violation(f'validation point with projection {float(p)} vs threshold {float(b)} assigned against the <= rule on {tdesc}',
+                                     dict(tdesc, row=r.tolist()), key=json.dumps(dict(site='val-routing')))
+            per_tree.append((root, nodes, e, n_checked, route_rows))
+        root, nodes, e, n_checked, route_rows = per_tree[0]          # the Coq correspondence below takes the first held tree
+        ck.case(dict(desc, node_sizes=[[nd['n'] for nd in t[1]] for t in per_tree] if len(per_tree) > 1 else [nd['n'] for nd in nodes], checked=n_checked),
+                nontrivial=len(nodes) >= 1, sample=len(nodes) >= 3)
         # ---- Coq ----
         Xdef = f'Definition Xr_{cid} : list (list Q) := {coq_Qmat(X.tolist())}.\nDefinition X_{cid} (i : nat) : list Q := nth i Xr_{cid} [].\nDefinition T_{cid} := {coq_ttree(root)}.'
         eq = coq_Q(e)
